@@ -7,6 +7,7 @@ import (
 	"errors"
 	"fmt"
 	"io"
+	"strings"
 
 	"verif/harness/rt"
 )
@@ -38,6 +39,11 @@ type PlanReader struct {
 	EOFWithData bool
 	// Boundaries are absolute offsets that no single read crosses
 	Boundaries []int
+	// Stalls is the number of reads answered with (0, nil) in front of every
+	// delivery of data (a source that is polled before its data have arrived;
+	// io.Reader allows this and asks callers to treat it as "nothing happened")
+	Stalls     int
+	stallCount int
 	Events     []ReadEvent
 	KeepEvents bool
 
@@ -63,6 +69,11 @@ func (r *PlanReader) Read(p []byte) (int, error) {
 		r.EOFReturned = true
 		return 0, io.EOF
 	}
+	if r.stallCount < r.Stalls {
+		r.stallCount++
+		return 0, nil
+	}
+	r.stallCount = 0
 	rt.Progress.Add(1)
 	n := len(p)
 	if len(r.Chunks) > 0 {
@@ -244,6 +255,16 @@ func (temporaryError) Error() string   { return "injected I/O fault (resource te
 func (temporaryError) Temporary() bool { return true }
 func (temporaryError) Timeout() bool   { return true }
 
+// ErrList is an error whose dynamic type is not comparable (a slice, like
+// go/scanner.ErrorList or the aggregate errors of many packages): comparing
+// two such values with == panics at run time.
+type ErrList []string
+
+func (e ErrList) Error() string { return "injected I/O fault (list): " + strings.Join(e, "; ") }
+
+// ErrInjectedList is an injected fault of type ErrList.
+var ErrInjectedList error = ErrList{"disk", "network"}
+
 // ErrInjectedTemporary has Temporary() == true and Timeout() == true.
 var ErrInjectedTemporary error = temporaryError{}
 
@@ -290,4 +311,30 @@ func (w *FaultWriter) Write(p []byte) (int, error) {
 		w.Buf = append(w.Buf, p...)
 	}
 	return len(p), nil
+}
+
+// ClosableSink is a destination with a Close method that behaves like a file:
+// after Close every Write fails. A writer that closes what it was given (a
+// wrapper closing "the writer below it") loses whatever it writes afterwards.
+type ClosableSink struct {
+	Buf        []byte
+	Closed     bool
+	CloseCalls int
+	LateWrites int
+}
+
+func (s *ClosableSink) Write(p []byte) (int, error) {
+	if s.Closed {
+		s.LateWrites++
+		return 0, errors.New("write on a closed sink (file already closed)")
+	}
+	s.Buf = append(s.Buf, p...)
+	return len(p), nil
+}
+
+// Close marks the sink closed.
+func (s *ClosableSink) Close() error {
+	s.CloseCalls++
+	s.Closed = true
+	return nil
 }
